@@ -80,7 +80,7 @@ struct Named {  // identity of an instrumented object
 
 // ------------------------------------------------------------------------------------------------
 // scheduler
-enum class Pol { Random, Pct, Replay, Np, Solo, Rr };
+enum class Pol { Random, Pct, Replay, Np, Solo, Rr, Stall };
 
 struct PendOp {
     const char* kind = "";
@@ -100,6 +100,7 @@ struct Thr {
     PendOp* pend = nullptr;
     int chosenAlt = 0;
     bool yielded = false;
+    int stallYields = 0;  // Pol::Stall: yields / sleeps taken while another thread is stalled in user code (>= 3: spinning)
     int prio = 0;
     std::vector<std::string> heldNames;  // library mutexes currently held (names)
     std::thread th;
@@ -145,6 +146,7 @@ struct RT {
     long soloAt = -1;     // Pol::Solo: step at which one thread starts to run alone
     int soloT = -1;       // that thread while it runs alone (-1: not in solo phase)
     bool soloDone = false;
+    int stallT = -1;      // Pol::Stall: the thread held inside user code
     int soloHelp = 0;     // help=1: library steps other threads were allowed while the lone thread waited for their lock
 };
 inline RT* g_rt = nullptr;
@@ -352,20 +354,23 @@ inline Cand choose()
     Pol pol = R.cfg.pol;
     if (pol == Pol::Replay && !R.soloDone) {
         // replay of an execution recorded under the solo policy: re-evaluate the starvation report at the same point
-        auto st = R.cfg.params.find("starveT");
+        auto st = R.cfg.params.find("starveM");  // bit t set: thread t was reported starved at schedule position starveK
         auto sk = R.cfg.params.find("starveK");
         if (st != R.cfg.params.end() && sk != R.cfg.params.end() && (long)R.replayPos == sk->second) {
             R.soloDone = true;
-            bool can = false;
-            for (auto& x : c)
-                if (x.t->id == (int)st->second && !x.weak) can = true;
-            Thr* tt = st->second < (long)R.thr.size() ? R.thr[(size_t)st->second].get() : nullptr;
-            if (!can && tt && tt->state != 2) {
-                Ev e;
-                e.t = (int)st->second;
-                e.k = "starved";
-                e.o = tt->pend ? tt->pend->kind : "";
-                emit(e);
+            for (size_t ti = 1; ti < R.thr.size(); ++ti) {
+                if (!((st->second >> ti) & 1)) continue;
+                bool can = false;
+                for (auto& x : c)
+                    if (x.t->id == (int)ti && !x.weak) can = true;
+                Thr* tt = R.thr[ti].get();
+                if (!can && tt && tt->state != 2) {
+                    Ev e;
+                    e.t = (int)ti;
+                    e.k = "starved";
+                    e.o = tt->pend ? tt->pend->kind : "";
+                    emit(e);
+                }
             }
         }
     }
@@ -383,6 +388,44 @@ inline Cand choose()
             report_blocked_and_exit("diverged", 4);
         }
         pol = R.cfg.npTail ? Pol::Np : Pol::Random;
+    }
+    if (pol == Pol::Stall) {
+        // user code may take arbitrarily long: at a random moment a thread whose next step is user code (payload access,
+        // functor copy, callback, destructor) is held there; the others run on. When none of them can move any more (or they
+        // only spin), every thread that is blocked in the middle of an operation is reported as `starved` - the monitors decide
+        // which of those operations are allowed to wait for user code - and the held thread is released. With help=1 nothing
+        // changes here: whoever is inside library code keeps running anyway.
+        if (!R.soloDone && R.stallT < 0) {
+            std::vector<int> us;
+            for (auto& x : c)
+                if (!x.weak && x.t->id > 0 && x.t->pend && !internal_kind(x.t->pend->kind) && std::strcmp(x.t->pend->kind, "call") != 0 &&
+                    std::strcmp(x.t->pend->kind, "ret") != 0 && std::strcmp(x.t->pend->kind, "start") != 0 && std::strcmp(x.t->pend->kind, "end") != 0 &&
+                    std::strcmp(x.t->pend->kind, "sleep") != 0 && std::strcmp(x.t->pend->kind, "join") != 0)
+                    us.push_back(x.t->id);
+            if (!us.empty() && R.rng() % 5 == 0) R.stallT = us[R.rng() % us.size()];
+        }
+        if (R.stallT >= 0) {
+            std::vector<Cand> d;
+            for (auto& x : c)
+                if (x.t->id != R.stallT && !x.weak && x.t->stallYields < 3) d.push_back(x);
+            if (!d.empty()) return d[R.rng() % d.size()];
+            for (auto& up : R.thr) {
+                Thr* t = up.get();
+                if (t->id <= 0 || t->id == R.stallT || t->state != 1 || !t->pend || t->stallYields >= 3) continue;
+                unsigned mask = t->pend->enabledMask ? t->pend->enabledMask() : 1u;
+                if ((mask & ~t->pend->weakMask) != 0) continue;
+                Ev e;
+                e.t = t->id;
+                e.k = "starved";
+                e.o = t->pend->kind;
+                e.x = intern(t->pend->what);
+                e.v = R.stallT;
+                emit(e);
+            }
+            R.stallT = -1;
+            R.soloDone = true;
+        }
+        pol = Pol::Random;
     }
     if (pol == Pol::Solo) {
         // from step soloAt on, one randomly chosen worker runs alone (everybody else is suspended wherever it
@@ -1204,6 +1247,7 @@ namespace this_thread {
         op.yielding = true;
         vrt::sched_point(op);
         vrt::log_ev("yield", "");
+        if (vrt::g_rt->stallT >= 0 && vrt::t_cur) vrt::t_cur->stallYields++;
         if (vrt::g_rt->soloT == vrt::cur_id()) {
             // the thread running alone waits for somebody else: the solo phase ends here (reported, judged by the monitors)
             vrt::log_ev("soloyield", "");
@@ -1220,6 +1264,7 @@ namespace this_thread {
         op.yielding = true;
         vrt::sched_point(op);
         vrt::log_ev("sleep", "");
+        if (vrt::g_rt->stallT >= 0 && vrt::t_cur) vrt::t_cur->stallYields++;
     }
 }  // namespace this_thread
 }  // namespace std
@@ -1348,7 +1393,7 @@ inline int main_loop(int argc, char** argv, std::function<void(Exec&)> body)
         if (k == "out") out = v;
         else if (k == "n") n = atol(v.c_str());
         else if (k == "seed") base.seed = strtoull(v.c_str(), nullptr, 10);
-        else if (k == "pol") base.pol = v == "pct" ? Pol::Pct : v == "np" ? Pol::Np : v == "solo" ? Pol::Solo : v == "rr" ? Pol::Rr : Pol::Random;
+        else if (k == "pol") base.pol = v == "pct" ? Pol::Pct : v == "np" ? Pol::Np : v == "solo" ? Pol::Solo : v == "rr" ? Pol::Rr : v == "stall" ? Pol::Stall : Pol::Random;
         else if (k == "sched") schedFile = v;
         else if (k == "budget") base.budget = atol(v.c_str());
         else if (k == "spurious") base.spurious = atoi(v.c_str()) != 0;
